@@ -17,7 +17,7 @@ RULE = ("E1: every labelled DAG on <=3 nodes (+ a star with 5 four-state parents
         "strings, and P(child=s | parents=c) for every NAMED assignment: exactly for BIF/XMLBIF/UAI, |d|<=5e-5 for NET. "
         "non-trivial = distinct (graph, cards, parent order, name pool) with >=2 parents of different cardinality or a keyword name")
 BOUNDS = {"quick": "n<=3 DAGs x 3 card vectors x all parent orders x 2 name pools x 4 formats; star(5 parents) once per format; hash seeds: see C16",
-          "thorough": "4 card vectors, 3 name pools, n_jobs=2 for BIF, PYTHONHASHSEED {1,2} sub-process runs"}
+          "thorough": "4 card vectors, 3 name pools, n_jobs=2 for BIF, PYTHONHASHSEED {1,2} sub-process runs; 4-node models with a three-parent node x 3 card vectors x all 6 parent orders"}
 EXHAUSTIVE = {"quick": True, "thorough": True}
 ASSUMPTIONS = ["variable and state names are plain identifiers", "NET keeps four decimals (documented)"]
 
@@ -48,6 +48,12 @@ def groups(tier, seed):
                         continue
                     out.append({"part": "bn", "n": n, "edges": [list(x) for x in e], "card": list(cv[:n]), "pool": pool})
     out.append({"part": "star"})
+    if tier == "thorough":
+        # a node with THREE parents of different cardinalities, every parent order
+        for e in ([[0, 3], [1, 3], [2, 3]], [[0, 3], [1, 3], [2, 3], [0, 1]], [[0, 1], [0, 2], [1, 2], [0, 3], [1, 3], [2, 3]]):
+            for cv in ([2, 3, 2, 2], [3, 2, 4, 2], [2, 2, 3, 3]):
+                for pool in ("plain", "keywords"):
+                    out.append({"part": "bn", "n": 4, "edges": e, "card": cv, "pool": pool})
     for n in (2, 3):
         for e in all_ugraphs(n):
             out.append({"part": "mn", "n": n, "edges": [list(x) for x in e], "card": [2, 3, 2][:n]})
